@@ -468,11 +468,16 @@ func (w *world16) step(op Op16, probe func(string)) (f *fail16, skipped bool) {
 	case "msetrow":
 		ab := mod(op.B, c16ASlots)
 		m, mm := w.m[ma], w.mm[ma]
-		if m == nil || !w.ok[ab] || op.Y < 0 || op.Y >= mm.h || len(w.am[ab]) != mm.w {
+		// the row may be longer than the matrix is wide (the reusable buffer
+		// GetRow hands back is): the first width bits are the row
+		if m == nil || !w.ok[ab] || op.Y < 0 || op.Y >= mm.h || len(w.am[ab]) < mm.w {
 			return skip()
 		}
+		if len(w.am[ab]) > mm.w {
+			probe("probe.setrow_from_longer_array")
+		}
 		m.SetRow(op.Y, w.a[ab])
-		copy(mm.b[op.Y], w.am[ab])
+		copy(mm.b[op.Y], w.am[ab][:mm.w])
 	// ---------------------------------------------------------------- matrix queries
 	case "mget":
 		m, mm := w.m[ma], w.mm[ma]
@@ -1111,7 +1116,7 @@ func C16() *kit.Spec {
 		StateMetric: "distinct operation histories (sha256 of the trace); every step compares the complete population with the naive models",
 		Assumptions: []string{
 			"arguments are in range as the naive model defines range; out-of-range calls are generated only for SetRegion/SetRange/IsRange/AppendBits/Xor where the API returns an error",
-			"SetBulk is given zero for bits at or beyond the array size; SetRow is given arrays whose size equals the matrix width",
+			"SetBulk is given zero for bits at or beyond the array size; SetRow is given arrays at least as wide as the matrix (their first width bits are the row)",
 			"no scheduler and no fault injector: these containers meet neither (DESIGN.md section 2, caveat 3)",
 		},
 		Components: map[string]string{
